@@ -240,3 +240,29 @@ def pareto_def(W, V):
     """indices i such that no j strictly dominates i (VOPareto!ParetoDef)"""
     n = len(V)
     return [i for i in range(n) if not any(dominates(W, V[j], V[i]) and not dominates(W, V[i], V[j]) for j in range(n))]
+
+
+def nearest_in_polyhedron(W, a, c):
+    """the point of { d : W d >= a } nearest to c (dimension <= 3), by active-set enumeration (see dist2_to_polyhedron)."""
+    m = len(c)
+    K = len(W)
+    best = None
+    bestp = None
+    for size in range(0, min(m, K) + 1):
+        for act in itertools.combinations(range(K), size):
+            if size == 0:
+                p = tuple(c)
+            else:
+                Wa = [W[i] for i in act]
+                G = [[dot(u, v) for v in Wa] for u in Wa]
+                rhs = [a[i] - dot(W[i], c) for i in act]
+                lam = _solve(G, rhs)
+                if lam is None:
+                    continue
+                p = tuple(c[k] + sum(lam[j] * Wa[j][k] for j in range(size)) for k in range(m))
+            tol = 1e-12 * max(1.0, max(abs(float(x)) for x in p))
+            if all(dot(W[i], p) >= a[i] - tol for i in range(K)):
+                d2 = sum((p[k] - c[k]) ** 2 for k in range(m))
+                if best is None or d2 < best:
+                    best, bestp = d2, p
+    return bestp
